@@ -14,7 +14,12 @@ B = "vx.monitors.basic."
 
 
 def job(scn, cfg, monitors, require_clean=True, deadline=None):
+    # scheduling hint only: start the expected long poles first
+    w = (3 if gen.is_huge(scn) else 0) + (2 if gen.is_big(scn) else 0) + (cfg.get("dev") or 4)
+    if scn.name in ("F6/dict-two-terminals",) or gen.is_cyclic_huge(scn):
+        w += 5
     return {
+        "weight": w,
         "scn": scn.to_json(),
         "cfg": cfg,
         "monitors": monitors,
@@ -232,10 +237,13 @@ def c05(tier, seed, only=None):
             # every transition costs two deserialisations here: keep the quick tier small
             if name in big_names:
                 j["cfg"]["dev"] = 1
-            if name.startswith("F6/"):
+            if name.startswith("F6/") or name.startswith("F4/") or name.startswith("F5/"):
                 for k in ("pause", "resume", "cancel"):
                     j["cfg"].pop(k, None)
+            if name.startswith("F6/"):
                 j["cfg"]["dev"] = 1
+            if j["cfg"].get("rerun") and name in big_names:
+                j["skip"] = True
         if name in ("F6/dict-two-terminals", "F6/cleanup-publishes-output", "F6/dict-republish-nobase",
                     "F6/dict-republish"):
             j["cfg"]["dev"] = (3 if j["cfg"].get("rerun") else 2) if tier == "quick" else 4
@@ -243,6 +251,7 @@ def c05(tier, seed, only=None):
     for s in gen.fx_all(tier):
         if s.meta.get("position") in ("input", "vars", "output", "retry_count", "publish") and s.meta.get("lang") == "yaql":
             jobs.append(job(s, dict(crash=True, horizon=40, render=True, dev=3, snap_graph=True), mons))
+    jobs = [j for j in jobs if not j.pop("skip", False)]
     jobs = _filter(jobs, only)
     results = runner.run_jobs(jobs, seed=seed)
     rule = (
